@@ -10,6 +10,7 @@ Record gen_obs := {
   g_entries : list (string * (list Z * list string));    (* per key: documented error codes (closure of the entry), direct references (component names) *)
   g_names : list (string * string);                      (* per key: the method name its request schema documents (const of `method`) *)
   g_params : list (string * list string);                (* per key: the parameter names its request schema / params list documents *)
+  g_tokens : list (string * list string);                (* per key: the marker tokens (of docstrings, tags, summaries, descriptions) found in the entry and the components it reaches *)
   g_components : list string;                            (* component keys *)
   g_all_refs : list string;                              (* every reference of the document *)
   g_digest : string;                                     (* digest of the whole document *)
@@ -17,6 +18,7 @@ Record gen_obs := {
 Record case := {
   is_rpc : bool; oas30 : bool; global_prefix : string; heap_before : heap; methods : list smethod;
   own_params : list (string * list string);              (* per key: the function's own parameter names (pydantic-first stacks) *)
+  tokens : list (string * (list string * list string));  (* per key: the tokens of the method's own docstring and annotations (may occur), of its annotations (must occur) *)
   gens : list gen_obs; heaps_after : list heap }.        (* one observation and one heap snapshot per generation *)
 
 Definition zset_eqb (a b : list Z) : bool := forallb (fun x => existsb (Z.eqb x) b) a && forallb (fun x => existsb (Z.eqb x) a) b.
@@ -57,6 +59,11 @@ Definition ok_gen (skip : string -> bool) (c : case) : bool :=
                            match get (fst kp) (g_params g) with
                            | Some ps => forallb (fun x => mem_str x (snd kp)) ps && forallb (fun x => mem_str x ps) (snd kp)
                            | None => false end) (own_params c)
+     (* ... with its own texts: tags, summary and description it was annotated with, and no text written for anything else *)
+     && forallb (fun kt => skip (fst kt) ||
+                           match get (fst kt) (g_tokens g) with
+                           | Some found => forallb (fun x => mem_str x (fst (snd kt))) found && forallb (fun x => mem_str x found) (snd (snd kt))
+                           | None => false end) (tokens c)
      (* closed: no dangling reference *)
      && forallb (fun r => mem_str r (g_components g)) (g_all_refs g)
      (* isolated: a method documents its own errors only and refers to components under its own prefix only *)
